@@ -332,40 +332,33 @@ class AnnotationsItem:
 
     def __attrs_post_init__(self) -> None:
         def translate(path: str) -> str:
-            # pylint: disable=too-many-branches
             blocks = []
-            escaping = False
-            globstar = False
-            prev_char = ""
-            for char in path:
+            index = 0
+            length = len(path)
+            while index < length:
+                char = path[index]
                 if char == "\\":
-                    if prev_char == "\\" and escaping:
-                        escaping = False
-                        blocks.append("\\\\")
-                    else:
-                        escaping = True
+                    # The next character is literal. A trailing backslash
+                    # escapes nothing and is dropped.
+                    if index + 1 < length:
+                        blocks.append(re.escape(path[index + 1]))
+                    index += 2
                 elif char == "*":
-                    if escaping:
-                        blocks.append(re.escape("*"))
-                        escaping = False
-                    elif prev_char == "*" and not globstar:
-                        globstar = True
-                        blocks.append(r".*")
-                elif char == "/":
-                    if not globstar:
-                        if prev_char == "*":
-                            blocks.append("[^/]*")
-                        blocks.append("/")
-                    escaping = False
-                else:
-                    if prev_char == "*" and not globstar:
+                    run_end = index
+                    while run_end < length and path[run_end] == "*":
+                        run_end += 1
+                    if run_end - index == 1:
                         blocks.append(r"[^/]*")
+                    elif path[run_end : run_end + 1] == "/":
+                        # '**/' also matches zero directories.
+                        blocks.append(r"(?:.*/)?")
+                        run_end += 1
+                    else:
+                        blocks.append(r".*")
+                    index = run_end
+                else:
                     blocks.append(re.escape(char))
-                    globstar = False
-                    escaping = False
-                prev_char = char
-            if prev_char == "*" and not globstar:
-                blocks.append(r"[^/]*")
+                    index += 1
             result = "".join(blocks)
             return f"^({result})$"
 
